@@ -205,6 +205,20 @@ def pkesk(rep, prog):
         rep.check(got == {want}, 'C03.1', 'PKESessionKeyV3.pkalg', '%s -> %s' % (alg, sorted(map(str, got))),
                   'a session-key packet for %s must carry a %s (the class whose encrypt/decrypt pair is checked here)' % (alg, want),
                   where=fs.where, expected=want, found=sorted(map(str, got)), scenario=alg)
+    # the packet body on the wire: 8-octet key id, algorithm octet, the ciphertext fields (RFC 4880 5.1)
+    fb = prog.method('pgpy.packet.packets', 'PKESessionKeyV3', '__bytearray__')
+    rep.saw(fn=fb)
+    for s in run_roles(prog, fb, ('self',), inline=None, axioms={'(self.ct is not None)': True, '(self.ct is None)': False}):
+        if s.raised:
+            continue
+        r = split_items(render(s.ret))
+        kid = split_args(r[1]) if len(r) == 4 else None
+        ok = len(r) == 4 and r[0] == 'self.header.__bytearray__()' and r[2] == 'BYTE(self.pkalg)' and r[3] == 'self.ct.__bytearray__()' and \
+            kid is not None and kid[0] == 'binascii.unhexlify' and len(kid[1]) == 1 and \
+            (kid[1][0] == 'self.encrypter' or (split_args(kid[1][0]) or ('',))[0] == 'self.encrypter.encode')
+        rep.check(ok, 'C03.1', 'PKESessionKeyV3.__bytearray__', 'return %s' % ' '.join(r)[:160],
+                  'the packet is header || the whole 8-octet recipient key id || algorithm octet || encrypted session key fields',
+                  where=fb.where, expected='header unhexlify(encrypter) BYTE(pkalg) ct', found=r)
     # RSACipherText: C = MPI(big-endian integer of encfn(m, padding)); decrypt hands the same arguments to the private operation
     re_ = prog.method('pgpy.packet.fields', 'RSACipherText', 'encrypt')
     rd_ = prog.method('pgpy.packet.fields', 'RSACipherText', 'decrypt')
